@@ -160,12 +160,12 @@ fn dispatch(name: &str, a: &Args) -> bool {
     "bmoc_builder_layout" => c07::p_bmoc_builder_layout(&ops(a, "a", a.u64("na") as usize)),
     "c14_internal" => c14::p_c14_internal(a.u8("depth"), a.u8("delta"), a.u64("hash"), a.u32("k"), a.u32("k2")),
     "c14_parts" => c14::p_c14_parts(a.u8("depth"), a.u8("delta"), a.u64("hash"), a.u32("k")),
-    "c14_external" => c14::p_c14_external(a.u8("depth"), a.u8("delta"), a.u64("hash"), a.u64("c"), a.u32("k")),
+    "c14_external" => c14::p_c14_external(a.u8("depth"), a.u8("delta"), a.u64("hash"), a.u64("c"), a.u32("k"), a.bool("sorted")),
     "c14_struct" => c14::p_c14_struct(a.u8("depth"), a.u8("delta"), a.u64("hash"), a.u64("c")),
     "c14_guard" => c14::p_c14_guard(a.u8("depth"), a.u8("delta"), a.u64("hash"), a.u8("which")),
     "bmoc_views" => c07::p_bmoc_views(a.u8("view"), &ops(a, "a", a.u64("na") as usize), a.u64("c"), a.u32("k")),
     "fixed_builder" => c07::p_fixed_builder(a.u8("depth"), a.bool("is_full"), a.u64("cap") as usize, a.u64("m") as usize, a.u64("p0"), a.u64("p1"), a.u64("p2"), a.u64("p3"), a.u64("c")),
-    "c01_all_depths" => c01::p_c01_all_depths(a.f64("lon"), a.f64("lat")),
+    "c01_all_depths" => c01::p_c01_search(a.f64("lon"), a.f64("lat")),
     "c01_point" => c01::p_c01_point(a.u8("depth"), a.f64("lon"), a.f64("lat")),
     "c01_pullback" => c01::p_c01_pullback(a.u8("d0h"), a.f64("l"), a.f64("h")),
     "c01_guard" => c01::p_c01_guard(a.u8("depth"), a.f64("lon"), a.f64("lat")),
@@ -175,7 +175,7 @@ fn dispatch(name: &str, a: &Args) -> bool {
     "c17_native_plane" => c17::p_c17_native_plane(a.f64("x"), a.f64("y")),
     "c17_base_cell" => c17::p_c17_base_cell(a.f64("x"), a.f64("y")),
     "c17_guard" => c17::p_c17_guard(a.u8("which"), a.f64("a"), a.f64("b")),
-    "c06_allsky" => c06::p_c06_allsky(a.u8("depth"), a.u8("delta"), a.f64("lon"), a.f64("lat"), a.f64("r")),
+    "c06_allsky" => { for r in [std::f64::consts::PI, 3.1415926535897936, 4.0, 1e300, f64::INFINITY].iter() { c06::p_c06_allsky(a.u8("depth"), a.u8("delta"), a.f64("lon"), a.f64("lat"), *r); } },
     "c11_pullback" => c11::p_c11_pullback(a.u32("nside"), a.f64("x"), a.f64("y")),
     "c11_center" => c11::p_c11_center(a.u32("nside"), a.u64("h")),
     "c11_order" => c11::p_c11_order(a.u32("nside"), a.u64("r")),
